@@ -14,8 +14,11 @@ CHECK = dict(
           "labelled 5-node graph without self-loops (thorough), plus random graphs of 5..12 nodes; "
           "each one with every node as head, as leaf and every (src, dst) pair for path enumeration; "
           "node labels are ints or strings (hash order varies with the shard's PYTHONHASHSEED), node and "
-          "edge insertion orders are shuffled; distinct = distinct (node count, edge set); non-trivial = "
-          "graph has at least one edge"),
+          "edge insertion orders are shuffled; plus histories: on one DiGraph object (and its copies) random "
+          "mutations through the public API (add_node add_edge add_uniq_edge del_edge discard_edge del_node "
+          "replace_node merge += copy) are interleaved with re-queries of all algorithms, mostly for heads "
+          "already asked, compared with the definitions on the object's current edge set; distinct = distinct "
+          "(node count, edge set); non-trivial = graph has at least one edge"),
     assumptions=["dominance is defined on the nodes reachable from the head; a head with predecessors is "
                  "dominated by itself only",
                  "the natural loop of a back edge a->b is b plus every node reaching a without b (whole graph)",
@@ -39,6 +42,7 @@ def shards(tier, seed, scale):
     for sh in out:
         # development aid: --scale < 1 thins the big exhaustive families
         sh["stride"] = max(1, int(round(1.0 / scale))) if scale < 1 else 1
+        sh["nhist"] = max(2, int((400 if tier == "quick" else 5000) * scale))
     return out
 
 
@@ -147,6 +151,258 @@ def run_shard(params, rec):
         mon.check_graph(case, walks_k=(1 if len(edges) <= n + 2 and n <= 6 else None),
                         paths=sparse)
 
+    # ---- histories: queries interleaved with mutations of the same object
+    hist = History(mon, rng, rec, gd)
+    for i in range(params.get("nhist", 0)):
+        hist.run(i)
+
+
+class View(object):
+    """the current state of a DiGraph that has a history (same attributes as Case)"""
+    tag = ""
+
+    def __init__(self, g, gd, ops):
+        self.g = g
+        nodes = list(g.nodes())
+        edges = list(g.edges())
+        self.multi = len(edges) != len(set(edges))
+        self.names = sorted(nodes, key=repr)
+        self.n = len(nodes)
+        self.edges = sorted(set(edges), key=repr)
+        self.succ = gd.normalize(nodes, edges)
+        self.raw = dict(n=self.n, edges=_j(self.edges), nodes=_j(self.names), history=ops)
+
+
+class Obj(object):
+    """one DiGraph object of a history"""
+
+    def __init__(self, g, name):
+        self.g = g
+        self.name = name
+        self.nops = 0            # mutations applied to this object
+        self.removal = []        # per mutation: is it removal-only
+        self.last_head = {}      # head -> nops at its last query
+        self.last_global = None
+        self.snapshot = None
+
+
+REMOVALS = ("del_edge", "discard_edge", "del_node")
+MUTATIONS = ("add_node", "add_edge", "add_uniq_edge", "del_edge", "discard_edge", "del_node", "replace_node",
+             "merge", "iadd", "copy")
+
+
+class History(object):
+    """One DiGraph object (and its copies): every mutation through the public API
+    is followed by queries whose answers are compared with the definitions on
+    the object's *current* node and edge sets (read back from nodes()/edges()).
+    An answer that was right for an earlier state of the same object (cached,
+    not invalidated) shows up as a mismatch; the key tells whether only removals
+    happened since the head was last queried."""
+
+    def __init__(self, mon, rng, rec, gd):
+        self.mon, self.rng, self.rec, self.gd = mon, rng, rec, gd
+
+    def labels(self):
+        k = self.rng.choice(["int", "str", "tuple"])
+        if k == "int":
+            return list(range(6))
+        if k == "str":
+            return ["n%d" % i for i in range(6)]
+        return [("blk", i) for i in range(6)]
+
+    @staticmethod
+    def state(g):
+        return (set(g.nodes()), sorted(g.edges(), key=repr))
+
+    def run(self, hid):
+        from miasm.core.graph import DiGraph
+        rng, rec = self.rng, self.rec
+        L = self.labels()
+        ops = []
+        g = DiGraph()
+        for x in rng.sample(L, rng.randrange(2, 6)):
+            g.add_node(x)
+        for a in list(g.nodes()):
+            for b in list(g.nodes()):
+                if rng.random() < 0.3:
+                    g.add_edge(a, b)
+        ops.append(["init", _j(sorted(g.nodes(), key=repr)), _j(sorted(g.edges(), key=repr))])
+        objs = [Obj(g, "g0")]
+        objs[0].snapshot = self.state(g)
+        rec.ev()
+        rec.count("histories")
+        self.query(objs[0], ops, L)
+        steps = rng.randrange(12, 30)
+        burst = 0
+        for step in range(steps):
+            o = rng.choice(objs)
+            # bursts of removals: query(h) -> removal-only mutations -> query(h)
+            if burst == 0 and rng.random() < 0.25:
+                burst = rng.randrange(1, 4)
+            if burst:
+                burst -= 1
+                kind = rng.choice(REMOVALS + REMOVALS[:2] * 2)
+            else:
+                kind = rng.choice(MUTATIONS + ('add_edge',) * 3 + ('add_uniq_edge',))
+            done = self.mutate(o, objs, kind, ops, L, DiGraph)
+            if done is None:
+                continue
+            if done is False:
+                return      # the mutation itself raised: state unknown, history abandoned
+            # the other objects must not have moved
+            for other in objs:
+                if other is not o and other.snapshot is not None and self.state(other.g) != other.snapshot:
+                    v = View(other.g, self.gd, ops)
+                    v.tag = " [history]"
+                    self.mon.bad(v, "DiGraph object", "changed by a mutation of another object (copy/merge share state)",
+                                 _j(self.state(other.g)), _j(other.snapshot), object=other.name)
+                    other.snapshot = self.state(other.g)
+            if burst and rng.random() < 0.5:
+                continue            # several removals before the next query
+            self.query(o, ops, L)
+            if len(objs) > 1 and rng.random() < 0.4:
+                self.query(rng.choice(objs), ops, L)
+
+    def mutate(self, o, objs, kind, ops, L, DiGraph):
+        """returns True (applied), None (not applicable), False (raised)"""
+        rng, rec, g = self.rng, self.rec, o.g
+        nodes = sorted(g.nodes(), key=repr)
+        edges = sorted(set(g.edges()), key=repr)
+        absent = [(a, b) for a in L for b in L if (a, b) not in edges]
+        try:
+            if kind == "add_node":
+                x = rng.choice(L)
+                g.add_node(x)
+                arg = [x]
+            elif kind == "add_edge":
+                if not absent:
+                    return None
+                a, b = rng.choice(absent)       # never a second copy of an edge: simple graphs only
+                g.add_edge(a, b)
+                arg = [a, b]
+            elif kind == "add_uniq_edge":
+                a, b = (rng.choice(edges) if edges and rng.random() < 0.3 else (rng.choice(L), rng.choice(L)))
+                g.add_uniq_edge(a, b)
+                arg = [a, b]
+            elif kind == "del_edge":
+                if not edges:
+                    return None
+                a, b = rng.choice(edges)
+                g.del_edge(a, b)
+                arg = [a, b]
+            elif kind == "discard_edge":
+                a, b = (rng.choice(edges) if edges and rng.random() < 0.8 else (rng.choice(L), rng.choice(L)))
+                g.discard_edge(a, b)
+                arg = [a, b]
+            elif kind == "del_node":
+                if not nodes:
+                    return None
+                x = rng.choice(nodes) if rng.random() < 0.9 else rng.choice(L)
+                g.del_node(x)
+                arg = [x]
+            elif kind == "replace_node":
+                if not nodes:
+                    return None
+                x = rng.choice(nodes)
+                y = rng.choice([l for l in L if l != x])
+                g.replace_node(x, y)
+                arg = [x, y]
+            elif kind in ("merge", "iadd"):
+                h = DiGraph()
+                for x in rng.sample(L, rng.randrange(0, 4)):
+                    h.add_node(x)
+                for a, b in rng.sample(absent, min(len(absent), rng.randrange(0, 4))):
+                    h.add_edge(a, b)
+                before = self.state(h)
+                if kind == "merge":
+                    g.merge(h)
+                else:
+                    g += h
+                    if g is not o.g:
+                        o.g = g
+                if self.state(h) != before:
+                    v = View(h, self.gd, ops)
+                    v.tag = " [history]"
+                    self.mon.bad(v, "DiGraph object", "merged-in graph changed by merge", _j(self.state(h)),
+                                 _j(before))
+                arg = [_j(sorted(before[0], key=repr)), _j(before[1])]
+            elif kind == "copy":
+                if len(objs) >= 3:
+                    return None
+                c = g.copy()
+                no = Obj(c, "g%d" % len(objs))
+                no.snapshot = self.state(c)
+                objs.append(no)
+                ops.append([o.name, "copy", no.name])
+                rec.count("mutation:copy")
+                if self.state(c) != self.state(g):
+                    v = View(c, self.gd, ops)
+                    v.tag = " [history]"
+                    self.mon.bad(v, "DiGraph.copy", "differs from the original", _j(self.state(c)),
+                                 _j(self.state(g)))
+                # the copy is queried at once, then both live on independently
+                self.query(no, ops, L)
+                return None
+            else:
+                return None
+        except Exception as exc:
+            # the mutation API has its own property; here it only ends the history
+            rec.count("mutation_raised:%s:%s" % (kind, type(exc).__name__))
+            return False
+        ops.append([o.name, kind] + _j(arg))
+        rec.count("mutation:" + kind)
+        o.nops += 1
+        o.removal.append(kind in REMOVALS)
+        o.snapshot = self.state(o.g)
+        return True
+
+    def since(self, o, last):
+        if last is None:
+            return "first"
+        r = o.removal[last:]
+        if not r:
+            return "unchanged"
+        return "removals" if all(r) else "mutations"
+
+    TAGS = {"first": " [history: first query]", "unchanged": " [history: re-query, object unchanged]",
+            "removals": " [history: re-query after removals only]",
+            "mutations": " [history: re-query after mutations]"}
+
+    def query(self, o, ops, L):
+        rng, rec, mon, gd = self.rng, self.rec, self.mon, self.gd
+        v = View(o.g, gd, list(ops))
+        if v.multi:
+            rec.count("history_multi_edge_state_skipped")
+            return
+        rec.count("history_queries")
+        pred = gd.reverse(v.succ)
+        cls = self.since(o, o.last_global)
+        v.tag = self.TAGS[cls]
+        rec.count("history_global_requery:" + cls)
+        mon.check_global(v)
+        o.last_global = o.nops
+        if not v.names:
+            return
+        # heads: mostly the ones already asked on this object
+        known = [h for h in o.last_head if h in v.succ]
+        heads = []
+        if known and rng.random() < 0.85:
+            heads.append(rng.choice(known))
+        if not heads or rng.random() < 0.5:
+            heads.append(rng.choice(v.names))
+        for h in dict.fromkeys(heads):
+            cls = self.since(o, o.last_head.get(h))
+            v.tag = self.TAGS[cls]
+            rec.count("history_head_requery:" + cls)
+            mon.check_head(v, h, pred, light=False)
+            o.last_head[h] = o.nops
+        if len(v.edges) <= 2 * v.n:
+            v.tag = " [history]"
+            s, d = rng.choice(v.names), rng.choice(v.names)
+            mon.check_paths(v, s, d, 1 if len(v.edges) <= v.n + 1 else None)
+        if len(rec.samples) < 10 and len(ops) == 12:
+            rec.sample(dict(kind="history on one DiGraph object", ops=ops[:12]))
+
 
 class Monitor(object):
     CALL_LIMIT = 5      # CPU seconds for one call on a graph of <= 12 nodes (normal: < 1 ms)
@@ -158,7 +414,7 @@ class Monitor(object):
 
     # -- reporting
     def bad(self, case, algo, cls, got, want, **ctx):
-        key = "%s %s" % (algo, cls)
+        key = "%s %s%s" % (algo, cls, getattr(case, "tag", ""))
         if self.rec._fail_per_key.get(key, 0) >= 4:
             # already documented by 4 witnesses in this shard: count only
             self.rec.fail(key, "")
@@ -180,16 +436,17 @@ class Monitor(object):
                 return True, fn(*args)
         except cpulimit.CpuTimeout:
             self.hung[algo] = self.hung.get(algo, 0) + 1
-            self.rec.fail("%s does not terminate (%ds CPU)" % (algo, self.CALL_LIMIT),
+            self.rec.fail("%s does not terminate (%ds CPU)%s" % (algo, self.CALL_LIMIT, getattr(case, "tag", "")),
                           "%s still running after %ds on n=%d edges=%s %s" % (
                               algo, self.CALL_LIMIT, case.n, case.raw["edges"], _j(ctx)),
                           dict(graph=case.raw, **{k: _j(v) for k, v in ctx.items()}))
             return False, None
         except Exception as exc:
-            if self.rec._fail_per_key.get("%s raises %s" % (algo, type(exc).__name__), 0) >= 4:
-                self.rec.fail("%s raises %s" % (algo, type(exc).__name__), "")
+            key = "%s raises %s%s" % (algo, type(exc).__name__, getattr(case, "tag", ""))
+            if self.rec._fail_per_key.get(key, 0) >= 4:
+                self.rec.fail(key, "")
                 return False, None
-            self.rec.fail("%s raises %s" % (algo, type(exc).__name__),
+            self.rec.fail(key,
                           "%s raised %r on n=%d edges=%s %s" % (algo, exc, case.n, case.raw["edges"], _j(ctx)),
                           dict(graph=case.raw, exc=repr(exc), **{k: _j(v) for k, v in ctx.items()}))
             return False, None
@@ -201,8 +458,19 @@ class Monitor(object):
         if case.edges:
             rec.distinct("%d/%r" % (case.n, case.raw["edges"]))
         pred = gd.reverse(succ)
+        self.check_global(case)
 
-        # graph-wide notions
+        for h in case.names:
+            self.check_head(case, h, pred, light)
+
+        if paths:
+            for s in case.names:
+                for d in case.names:
+                    self.check_paths(case, s, d, walks_k)
+
+    def check_global(self, case):
+        """graph-wide notions"""
+        rec, gd, g, succ = self.rec, self.gd, case.g, case.succ
         want_cyc = gd.has_cycle(succ)
         rec.count("cyclic" if want_cyc else "acyclic")
         ok, got = self.call(case, "has_loop", g.has_loop)
@@ -217,14 +485,6 @@ class Monitor(object):
         ok, got = self.call(case, "wcc", g.compute_weakly_connected_components)
         if ok:
             self.cmp_partition(case, "compute_weakly_connected_components", got, want)
-
-        for h in case.names:
-            self.check_head(case, h, pred, light)
-
-        if paths:
-            for s in case.names:
-                for d in case.names:
-                    self.check_paths(case, s, d, walks_k)
 
     def cmp_partition(self, case, algo, got, want):
         try:
@@ -430,4 +690,14 @@ def floors(tier, counters, evaluations):
               "walk_queries_with_repeated_node"):
         if counters.get(k, 0) < 100:
             miss.append("%s seen %d times (<100)" % (k, counters.get(k, 0)))
+    thin = bool(counters.get("thinned"))
+    for k, need in (("history_head_requery:removals", 10000), ("history_head_requery:mutations", 10000),
+                    ("history_head_requery:unchanged", 1000), ("history_global_requery:removals", 5000),
+                    ("histories", 3000)):
+        need = need // 10 if thin else need
+        if counters.get(k, 0) < need:
+            miss.append("%s = %d (<%d)" % (k, counters.get(k, 0), need))
+    for m in MUTATIONS:
+        if counters.get("mutation:" + m, 0) < (100 if thin else 1000):
+            miss.append("mutation %s applied %d times" % (m, counters.get("mutation:" + m, 0)))
     return miss
